@@ -104,6 +104,88 @@ SPECS += [
 ]
 
 
+# ---- third tranche: functions that WRITE the heap --------------------------------------------------------------
+WID = ('option', 'wid')
+ATTRS_W = dict(ATTRS_ID)
+ATTRS_W['__wbs'] = ('own', WID)
+WRITES = {'__parent': 'with_par', '__wbs': 'with_own', '__children': 'with_kids'}
+
+SPECS += [
+    # Task._attach(wbs) / Task._detach(): the owner of a whole subtree
+    dict(file='task.py', cls='Task', func='_attach', coq_name='src_attach', heap='h', state='h', obj_attrs=ATTRS_W,
+         obj_writes=WRITES, params={'self': ('self', 'obj'), 'wbs': ('wbs', WID), 'h': ('h', 'heap')},
+         signature=[('h', 'heap'), ('self', 'obj'), ('wbs', WID)], ret='unit',
+         recursive=True, loops='fold', method_mutators={'_attach': ('src_attach $F', [WID])}),
+    dict(file='task.py', cls='Task', func='_detach', coq_name='src_detach', heap='h', state='h', obj_attrs=ATTRS_W,
+         obj_writes=WRITES, params={'self': ('self', 'obj'), 'h': ('h', 'heap')},
+         signature=[('h', 'heap'), ('self', 'obj')], ret='unit',
+         recursive=True, loops='fold', method_mutators={'_detach': ('src_detach $F', [])}),
+    # the setter of Task.parent: guards, then the writes on both ends of the hierarchy edge
+    dict(file='task.py', cls='Task', func='parent', decorator='parent.setter', coq_name='src_set_parent', heap='h', state='h',
+         joins=True, obj_attrs=ATTRS_W, obj_writes=WRITES,
+         obj_props={'parent': ('src_parent $H', ('option', 'obj'), True),
+                    'all_children': ('src_all_children fuel $H', OBJS, True)},
+         params={'self': ('self', 'obj'), 'parent': ('parent', ('option', 'obj')), 'h': ('h', 'heap')},
+         signature=[('fuel', 'nat'), ('wroots', OBJS), ('h', 'heap'), ('self', 'obj'), ('parent', ('option', 'obj'))],
+         ret='unit', locals={'parent': ('option', 'obj')},
+         method_mutators={'_attach': ('src_attach fuel', [WID])},
+         calls={'_has_id_intersection': ('apply', 'src_has_id_intersection fuel $H', ('fun', ['obj', OBJS], 'bool', True), [0, 1]),
+                'self.__check_no_links_with': ('apply', 'src_check_no_links_with fuel $H self', ('fun', ['obj'], 'unit', True), [0]),
+                'self.__wbs._root': ('custom', None)}),
+]
+
+
+LOO = ('list', ('option', 'obj'))
+ATTRS_W2 = dict(ATTRS_W)
+WRITES2 = dict(WRITES)
+WRITES2['__predecessors'] = 'with_preds'
+WRITES2['__successors'] = 'with_succs'
+ARG_CALLS = {'_to_list': ('apply', 'somes', ('fun', [LOO], OBJS, False), [0]),          # the argument: a list of tasks / None entries
+             '_unique_tasks': ('apply', 'src_unique_tasks', ('fun', [OBJS], OBJS, True), [0])}
+
+
+def links_setter(func, coq):
+    return dict(file='task.py', cls='Task', func=func, decorator=func + '.setter', coq_name=coq, heap='h', state='h',
+                obj_attrs=ATTRS_W2, obj_writes=WRITES2,
+                obj_props={'all_parents': ('src_all_parents fuel $H', OBJS, True),
+                           'all_children': ('src_all_children fuel $H', OBJS, True),
+                           'all_predecessors': ('src_all_predecessors fuel $H', OBJS, True),
+                           'all_successors': ('src_all_successors fuel $H', OBJS, True)},
+                params={'self': ('self', 'obj'), 'value': ('value', LOO), 'h': ('h', 'heap')},
+                signature=[('fuel', 'nat'), ('h', 'heap'), ('self', 'obj'), ('value', LOO)],
+                ret='unit', locals={'value': OBJS, 'parents': OBJS, 'children': OBJS},
+                calls=dict(ARG_CALLS), ignored_calls=('_check_no_nones_in_list',))
+
+
+SPECS += [
+    links_setter('predecessors', 'src_set_predecessors'),
+    links_setter('successors', 'src_set_successors'),
+    # the setter of Task.children
+    dict(file='task.py', cls='Task', func='children', decorator='children.setter', coq_name='src_set_children', heap='h', state='h',
+         obj_attrs=ATTRS_W2, obj_writes=WRITES2,
+         obj_props={'all_children': ('src_all_children fuel $H', OBJS, True)},
+         params={'self': ('self', 'obj'), 'value': ('value', LOO), 'h': ('h', 'heap')},
+         signature=[('fuel', 'nat'), ('h', 'heap'), ('self', 'obj'), ('value', LOO)],
+         ret='unit', locals={'value': OBJS}, joins=True,
+         method_mutators={'_attach': ('src_attach fuel', [WID]), '_detach': ('src_detach fuel', [])},
+         calls=dict(ARG_CALLS, **{'_has_id_intersection': ('apply', 'src_has_id_intersection fuel $H', ('fun', ['obj', OBJS], 'bool', True), [0, 1]),
+                                  '.__check_no_links_with': ('recv_fn', 'src_check_no_links_with fuel $H', ('fun', ['obj', 'obj'], 'unit', True), [0])}),
+         ignored_calls=('_check_no_nones_in_list',)),
+]
+
+
+def wbs_root(tr, e, env, k):
+    """self.__wbs._root(): the hidden root task of the owner WBS (the owner is known to be set where this is called)"""
+    def with_w(w, tw):
+        if tw != 'wid':
+            raise pylite.Unsupported('_root() of a %s' % (tw,))
+        return k('(nth %s wroots O)' % w, 'obj')
+    return tr.expr(e.func.value, env, with_w)
+
+
+[sp for sp in SPECS if sp['coq_name'] == 'src_set_parent'][0]['calls']['self.__wbs._root'] = ('custom', wbs_root)
+
+
 def emit(repo):
     texts = [HEADER]
     problems = []
